@@ -23,6 +23,7 @@
 import CppUtil.Props.C01
 import CppUtil.Proofs.WLockMore
 import CppUtil.Proofs.WLockLive
+import CppUtil.Proofs.WLockLive2
 import CppUtil.Proofs.McsProgress
 import CppUtil.Props.McsProto
 
@@ -176,6 +177,56 @@ theorem c02_fair_termination_opt (r k : Nat) (hk : k < 2 ^ 30) (modes : List Mod
   have hq : ∀ l ∈ (execW (Gen.opt r) modes nvs (initK k) segs.flatten).agents, l.grant? = none := by
     intro l hl; obtain ⟨w, rfl⟩ := hdone l hl; rfl
   exact (quiescent_free hS hfin.inv hq).2.2.2
+
+/-- **fair termination with upgrades and downgrades, PessimisticLock.**  Every agent runs one of the scripts
+    `Lock<m>; release`, `LockSIX; UpgradeToX; release`, `LockX; DowngradeToSIX; release` (any assignment of scripts to the
+    `k` agents).  Every schedule of more than `6k(2k+1) + 2k` rounds ends with every agent done and the lock free. -/
+theorem c02_fair_termination_conv_pess (r k : Nat) (hk : k < 2 ^ 62) (scs : List Script) (nvs : List (BitVec 32))
+    (segs : List (List Nat)) (hall : ∀ seg ∈ segs, ∀ j, j < k → j ∈ seg)
+    (hlen : 6 * k * (2 * k + 1) + 2 * k < segs.length) :
+    (∀ l ∈ (exec2 (Gen.pess r) scs nvs (initK k) segs.flatten).agents, ∃ w, l = Loc.done w) ∧
+    (Gen.pess r).lockGuard .X (exec2 (Gen.pess r) scs nvs (initK k) segs.flatten).w = true := by
+  have hS := pess_specs r
+  have h0 : WL2 (Gen.pess r) pessDecoder scs k (initK k) := wl2_init hS scs k (by simpa [pessDecoder] using hk)
+  have hfin := wl2_exec hS scs nvs segs.flatten h0
+  have hz := rounds_finish2 hS scs nvs segs h0 hall (Nat.lt_of_le_of_lt (psi2_init_le scs k) hlen)
+  have hdone : ∀ l ∈ (exec2 (Gen.pess r) scs nvs (initK k) segs.flatten).agents, ∃ w, l = Loc.done w := by
+    intro l hl
+    obtain ⟨i, hi, hil⟩ := List.getElem_of_mem hl
+    exact done_of_phases2_zero hfin.closed hz i l (by rw [List.getElem?_eq_getElem hi, hil])
+  refine ⟨hdone, ?_⟩
+  have hq : ∀ l ∈ (exec2 (Gen.pess r) scs nvs (initK k) segs.flatten).agents, l.grant? = none := by
+    intro l hl; obtain ⟨w, rfl⟩ := hdone l hl; rfl
+  exact (quiescent_free hS hfin.inv hq).2.2.2
+
+/-- the same for OptimisticLock -/
+theorem c02_fair_termination_conv_opt (r k : Nat) (hk : k < 2 ^ 30) (scs : List Script) (nvs : List (BitVec 32))
+    (segs : List (List Nat)) (hall : ∀ seg ∈ segs, ∀ j, j < k → j ∈ seg)
+    (hlen : 6 * k * (2 * k + 1) + 2 * k < segs.length) :
+    (∀ l ∈ (exec2 (Gen.opt r) scs nvs (initK k) segs.flatten).agents, ∃ w, l = Loc.done w) ∧
+    (Gen.opt r).lockGuard .X (exec2 (Gen.opt r) scs nvs (initK k) segs.flatten).w = true := by
+  have hS := opt_specs r
+  have h0 : WL2 (Gen.opt r) optDecoder scs k (initK k) := wl2_init hS scs k (by simpa [optDecoder] using hk)
+  have hfin := wl2_exec hS scs nvs segs.flatten h0
+  have hz := rounds_finish2 hS scs nvs segs h0 hall (Nat.lt_of_le_of_lt (psi2_init_le scs k) hlen)
+  have hdone : ∀ l ∈ (exec2 (Gen.opt r) scs nvs (initK k) segs.flatten).agents, ∃ w, l = Loc.done w := by
+    intro l hl
+    obtain ⟨i, hi, hil⟩ := List.getElem_of_mem hl
+    exact done_of_phases2_zero hfin.closed hz i l (by rw [List.getElem?_eq_getElem hi, hil])
+  refine ⟨hdone, ?_⟩
+  have hq : ∀ l ∈ (exec2 (Gen.opt r) scs nvs (initK k) segs.flatten).agents, l.grant? = none := by
+    intro l hl; obtain ⟨w, rfl⟩ := hdone l hl; rfl
+  exact (quiescent_free hS hfin.inv hq).2.2.2
+
+theorem c02_closed_system_conv_steps (P : WParams) (scs : List Script) (nvs : List (BitVec 32)) (s : St) (i : Nat) :
+    adv2 P scs nvs s i = s ∨ ∃ a e, step P s a = some (adv2 P scs nvs s i, e) :=
+  adv2_is_step scs nvs s i
+
+/-- non-vacuity with conversions: an upgrader, a reader and a downgrader on an OptimisticLock, 40 round-robin rounds -/
+theorem c02_fair_termination_conv_nonvacuous :
+    ((exec2 (Gen.opt 1) [.sixUp, .plain .S, .xDown] [] (initK 3) (List.replicate 40 [0, 1, 2]).flatten).agents.all
+      (fun l => match l with | .done _ => true | _ => false)) = true := by
+  decide +kernel
 
 /-- the closed system's actions are steps of the lock model (the model that is replayed against the implementation) -/
 theorem c02_closed_system_steps (P : WParams) (modes : List Mode) (nvs : List (BitVec 32)) (s : St) (i : Nat) :
